@@ -56,8 +56,20 @@ def pipe_plan(pid, tier, seed):
                                  [(0, 0, 0, 0), (0, 0, 2, 0), (0, 2, 0, 2), (0, 1, 3, 0)][k % 4], timeout=600))
     return qs
 
+def pipe_selected(pid, tier, seed):
+    """the scripted two-worker queries that are decided within a minute on the unchanged tree (selected once with
+    tools: a 60 s cap over 160 candidates; scripts whose await cannot be represented or whose value-dependent
+    segment tests make symbolic execution explode are left out and listed as outside the bound)"""
+    import json, os
+    ok = set(json.load(open(os.path.join(os.path.dirname(os.path.abspath(__file__)), 'pipe_ok.json'))))
+    qs = [q for q in pipe_plan(pid, 'thorough', 1) if q.name in ok]
+    for q in qs:
+        q.timeout = 240
+    return qs if tier == 'thorough' else qs[:36]
+
+
 def plan(tier, seed):
-    return sched_plan('C03', tier, seed, markbusy=True) + pipe_plan('C03', tier, seed)
+    return sched_plan('C03', tier, seed, markbusy=True) + pipe_selected('C03', tier, seed)
 
 META = {
     'level': 'model_checking',
